@@ -225,7 +225,8 @@ TRIGGERS = {
     "stateful_optimizer_reused": lambda c: c.op == "reuse" and c.args["opt"] in ("adam", "adagrad"),
     "single_sample": lambda c: (c.op == "uniform_prop" and c.args["n"] == 1) or
                                (c.op == "stratified_prop" and c.meta.get("total") == 1),
-    "draw_is_zero": lambda c: c.op.endswith("_prop") and _zero_draw(c),
+    "draw_is_zero": lambda c: c.op.split("_")[0] in ("uniform", "stratified", "semistrat") and _zero_draw(c),
+    "sptensor_without_nonzeros": lambda c: c.op in ("stratified", "stratified_prop") and not c.args["subs"] and c.args["cn"] == 0,
     "semistrat_zero_hits_nonzero": lambda c: c.op == "semistrat_prop" and bool(c.meta.get("semi_hit")),
     "zero_supply_short": lambda c: c.op in ("stratified", "stratified_prop") and bool(c.meta.get("short")),
     "semistrat_no_requested_nonzeros": lambda c: c.op in ("semistrat", "semistrat_prop") and c.args["cn"] == 0,
